@@ -251,7 +251,10 @@ def run(ctx: Ctx):
     r7 = c02.rule_get_or(ctx)
     r7.clause = "C17.7"
     r8 = fresh.run_fresh(ctx.p, "C17.8", ["urwid.canvas"], floor=30)
-    return [rule_palette_order(ctx), rule_palette_notify(ctx), rule_palette_cache(ctx), rule_palette_total(ctx), rule_attrmap(ctx), r6, r7, r8]
+    from ..rules import fwd
+
+    r9 = fwd.run_fwd(ctx.p, "C17.9", ("urwid.widget",), floor=100, description="containers and decorations pass the focus flag they receive on to the children they draw / measure: a focus map further down is applied exactly when the widget is in focus")
+    return [rule_palette_order(ctx), rule_palette_notify(ctx), rule_palette_cache(ctx), rule_palette_total(ctx), rule_attrmap(ctx), r6, r7, r8, r9]
 
 
 _CM = "urwid/display/common.py"
@@ -268,5 +271,7 @@ MUTANTS = [
     Mut("html-lookup-partial", _HT, "HtmlGenerator.draw_screen", "self._palette.get(a, self._palette[None])[", "self._palette[a][", "GUARD|display.html_fragment.HtmlGenerator.draw_screen"),
     Mut("attrmap-focus-map-unconditional", "urwid/widget/attr_map.py", "AttrMap.render", "if focus and self._focus_map is not None:", "if self._focus_map is not None:", "GUARD|widget.attr_map.AttrMap.render"),
     Mut("cut-attr-from-kept-neighbour", "urwid/util.py", "trim_text_attr_cs", "al = rle_get_at(attr, spos - 1)", "al = rle_get_at(attr, spos)", "PAIR|util.trim_text_attr_cs"),
+    Mut("linebox-like-decoration-drops-focus", "urwid/widget/attr_map.py", "AttrMap.render", "canv = self._original_widget.render(size, focus=focus)", "canv = self._original_widget.render(size)", "FOCUS-FWD|widget.attr_map.AttrMap.render"),
+    Mut("popup-pack-drops-focus", "urwid/widget/popup.py", "PopUpTarget.pack", "return self._current_widget.pack(size, focus)", "return self._current_widget.pack(size)", "FOCUS-FWD|widget.popup.PopUpTarget.pack"),
     Mut("twin-html-map-reordered", _HT, "HtmlGenerator.draw_screen", "{1: 1, 16: 0, 88: 2, 256: 3, 2**24: 4}", "{16: 0, 1: 1, 88: 2, 256: 3, 2**24: 4}", twin=True),
 ]
